@@ -242,6 +242,14 @@ def w_options(item, seed=0):
         if ms == "larger":
             opts["max_shift"] = float(np.hypot(*s) + 2.5)
         check_point(t, "numpy", shape, which, s, up, seed, opts=opts, swap=False)
+    if ms == "rim":
+        # the peak on the RIM of the max_shift window: radii just larger than the applied shift (a direct neighbour of the
+        # correlation peak is then excluded), for shifts along the axes, the diagonal and beyond half the size
+        rim_shifts = [(1, 0), (0, -2), (3, 0), (0, 3), (-3, 0), (2, 2), (-2, 3), (M // 2, 0), (0, -(N // 2)), (2.6, 0), (0, -1.75), (1.5, 1.5)]
+        for s in rim_shifts:
+            for extra in (0.5, 1.0, 1.000001, 1.5):
+                opts = {"fft_input": fft_input, "ret": ret, "fft_output": fft_output, "max_shift": float(np.hypot(*wrapdiff(s, (0, 0), shape)) + extra)}
+                check_point(t, "numpy", shape, which, s, up, seed, opts=opts, swap=False)
     return t
 
 
@@ -503,7 +511,7 @@ def run(ctx):
         "ground truth = exact Fourier translation of Nyquist-free band-limited images whose autocorrelation side lobes are <= 0.6 of the peak (checked at generation)",
         "results are compared modulo the periodic cell (a shift of exactly half an even axis has two equivalent representations)",
         "paths that do not upsample (NumPy factor 1; torch factors 1 and 2, which return the parabolic estimate rounded to half pixels) are only required to be within one pixel: the property gives no number for the parabolic-refinement accuracy",
-        "max_shift is only exercised with a radius larger than the applied shift, as the quantifier states",
+        "max_shift is only exercised with a radius larger than the applied shift (by 0.5 ... 2.5 px: the peak may lie on the rim of the window), as the quantifier states",
     )
 
     def once():
@@ -526,7 +534,7 @@ def run(ctx):
     ctx.coverage["bounds"]["subpixel_step"] = step
     ctx.coverage["bounds"]["subpixel_offsets"] = [list(o) for o in offs]
     ctx.pmap(w_subpixel, list(itertools.product(impls, sub_shapes, sub_images, factors, offs)), chunk=1, label="sub-pixel grid", seed=ctx.seed, step=step)
-    opt_items = list(itertools.product([(8, 11), (9, 9)] if q else shapes, ["0"] if q else ["0", "blob"], [1, 3, 16] if q else FACTORS, [False, True], [False, True], [False, True], ["none", "larger"]))
+    opt_items = list(itertools.product([(8, 11), (9, 9)] if q else shapes, ["0"] if q else ["0", "blob"], [1, 3, 16] if q else FACTORS, [False, True], [False, True], [False, True], ["none", "larger", "rim"]))
     opt_items = [o for o in opt_items if o[4] or not o[5]]  # fft_output only matters with return_shifted_image
     ctx.pmap(w_options, opt_items, label="NumPy options", seed=ctx.seed)
     sp = [((8, 11), "0", (2, -3), 4), ((9, 9), "blob", (-1, 4), 3)] if q else [(sh, w, sft, u) for sh in [(8, 11), (9, 9), (8, 8)] for w in ("0", "blob") for sft in ((2, -3), (0, 0), (-1, 4)) for u in (1, 3, 8)]
